@@ -10,7 +10,8 @@ RULE = ("histories over {constructor kwargs, set valid / wrong type / None / unk
         "over EVERY option of both domains; after every step every option is read through every client's options "
         "and every transport's options and compared with the model; exhaustive to length 2 over a representative "
         "option per definition class (3 thorough), random to length 30; non-trivial = the history contains a "
-        "rejected assignment, a transport replacement or a clone; distinct = distinct histories")
+        "rejected assignment, a transport replacement or a clone; distinct = distinct histories"
+        ' ; plus: option names that look internal, transports attached again, several options in one set_options call, what the transport does with the proxy option (loopback servers)')
 ASSUMPTIONS = ["object-valued options (cache, store, plugins...) are compared by class, transports by identity",
                "mutating a default container in place (shared mutable defaults) is outside the operation alphabet"]
 PARTIAL = []
